@@ -8,6 +8,7 @@ import (
 	"sort"
 	"strings"
 	"sync"
+	"time"
 )
 
 type kind int
@@ -151,6 +152,16 @@ func channels() string {
 	return s + fmt.Sprint(";", w, ok2, v3, ok3)
 }
 
+func clock() string {
+	t0 := time.Now()
+	time.Sleep(0)
+	d := time.Since(t0)
+	select {
+	case <-time.After(time.Microsecond):
+	}
+	return fmt.Sprint(d >= 0, time.Until(t0) <= 0)
+}
+
 func seq(yield func(int) bool) {
 	for i := 0; i < 3; i++ {
 		if !yield(i) {
@@ -168,6 +179,7 @@ func main() {
 	fmt.Println(locked(b), locked(b))
 	fmt.Println(control(7))
 	fmt.Println(channels())
+	fmt.Println(clock())
 	close(func() chan int { c := make(chan int); return c }())
 	total := 0
 	for v := range seq {
